@@ -579,6 +579,75 @@ def gen_graphs_random(cs, rng, thorough):
     cs.add("graph-dag-deep", g, root=prev, mask=W_SHARED)
 
 
+LABEL_SIZES_QUICK = [23, 24, 25, 26, 47, 48, 49, 50, 95, 96, 97, 98, 192, 193, 200]
+LABEL_SIZES_THOROUGH = [1, 2, 15, 16, 17, 22, 23, 24, 25, 26, 46, 47, 48, 49, 50, 94, 95, 96, 97, 98, 190, 191, 192, 193, 194, 200, 385, 400]
+
+
+def label_epoch(n):
+    """which size of the native reader's label table (24, doubling) the highest label n-1 needs"""
+    for lim in (23, 47, 95, 191, 383):
+        if n - 1 < lim:
+            return "table%d" % (lim + 1)
+    return "table768+"
+
+
+def gen_labels(cs, rng, thorough):
+    """data with MANY shared nodes, i.e. many datum labels when written by write-shared (and by write for the
+       self-cyclic families); label counts at and around every size of the native reader's label table, in several
+       orders of definition and reference"""
+    for n in (LABEL_SIZES_THOROUGH if thorough else LABEL_SIZES_QUICK):
+        ep = label_epoch(n)
+
+        def shared_nodes(g, kind):
+            ids = []
+            for i in range(n):
+                if kind == "pair":
+                    p = g.add("pair")
+                    g.set(p, [g.add("int", p=int_payload(i)), g.add("null")])
+                elif kind == "vec":
+                    p = g.add("vec")
+                    g.set(p, [g.add("int", p=int_payload(i))])
+                else:                                   # self-cyclic pair (i . <itself>): labelled by write as well
+                    p = g.add("pair")
+                    g.set(p, [g.add("int", p=int_payload(i)), p])
+                ids.append(p)
+            return ids
+        boundary = sorted(set(k for k in (0, 1, 15, 16, 22, 23, 24, 25, 46, 47, 48, 49, 94, 95, 96, 97, 190, 191, 192, 193, n - 2, n - 1) if 0 <= k < n))
+        fams = [("adjacent", "pair", lambda ids: [x for i in ids for x in (i, i)]),
+                ("defs-then-refs", "pair", lambda ids: ids + ids),
+                ("defs-then-refs", "vec", lambda ids: ids + ids),
+                ("reverse-refs", "pair", lambda ids: ids + ids[::-1]),
+                ("adjacent-then-late-refs", "pair", lambda ids: [x for i in ids for x in (i, i)] + [ids[k] for k in boundary] + [ids[k] for k in reversed(boundary)]),
+                ("selfcyclic-defs-then-refs", "self", lambda ids: ids + ids),
+                ("selfcyclic-reverse-refs", "self", lambda ids: ids + ids[::-1])]
+        for fam, kind, order in fams:
+            g = G()
+            v = g.add("vec")
+            ids = shared_nodes(g, kind)
+            g.set(v, order(ids))
+            cs.add("labels-%s-%s:%s" % (fam, kind, ep), g, cyc=1 if kind == "self" else 0, note="%d labels" % n)
+        # nested definitions: a list whose every cell is also an element of the root vector; and the same closed to a ring
+        for ring in (False, True):
+            g = G()
+            v = g.add("vec")
+            ps = [g.add("pair") for _ in range(n)]
+            for j, p in enumerate(ps):
+                g.set(p, [g.add("int", p=int_payload(j)), ps[j + 1] if j + 1 < n else (ps[0] if ring else g.add("null"))])
+            g.set(v, ps + ps[::-1])
+            cs.add("labels-%s:%s" % ("nested-ring" if ring else "nested-list", ep), g, cyc=1 if ring else 0, mask=W_SHARED,       # (write labels one cell only and unfolds the rest: quadratic text)
+                   note="%d labels" % n)
+        # every shared node points back to the root vector (one label referenced n times from inside) and is shared itself
+        g = G()
+        v = g.add("vec")
+        ps = []
+        for j in range(n):
+            p = g.add("pair")
+            g.set(p, [g.add("int", p=int_payload(j)), v])
+            ps.append(p)
+        g.set(v, ps + ps)
+        cs.add("labels-back-to-root:%s" % ep, g, cyc=1, note="%d labels" % (n + 1))
+
+
 def tlc_graphs(sc, thorough):
     """small graphs enumerated by TLC from DatumMC (mode gen / gen4)"""
     out = []
@@ -789,20 +858,25 @@ def campaign(chk, sc, build, cases, kind, label, jobs_drv=8, jobs_tlc=6):
         if info.get("simple_is_native") != 1:
             raise Broken("write-simple is no longer the native writer: extend the writer masks")
         by.update(b)
-        # a crashed / hung driver leaves cases without events: re-run the remaining ones one by one later
-        missing = [c for c in ch if c["id"] not in b or not b[c["id"]][-1].startswith('{"e":"End"')]
-        if missing:
-            first = missing[0]
-            # everything after the first unfinished case was never attempted: run it in a fresh process
-            rest = [c for c in missing[1:]]
-            if rest:
-                rc2, evs2, err2 = run_driver(build, sc, kind, [c["recipe"] if kind == "rt" else c["textline"] for c in rest],
-                                             "%s_retry_%d" % (label, first["id"]), timeout=1500)
-                b2, _ = case_events(evs2)
-                by.update(b2)
+        # a crashed / hung driver leaves cases without events: the first unfinished case is the culprit (its Begin
+        # without End is what TLC rejects), everything after it was never attempted and runs in a fresh process
+        todo, rc_, err_, rounds = ch, rc, err, 0
+        while True:
+            missing = [c for c in todo if c["id"] not in by or not by[c["id"]][-1].startswith('{"e":"End"')]
+            if not missing:
+                break
+            first, rest = missing[0], missing[1:]
             if first["id"] not in by:
                 by[first["id"]] = ['{"e":"Begin","id":%d}' % first["id"]]
-            chk.cov.setdefault("driver_incomplete_cases", []).append({"id": first["id"], "cls": first["cls"], "rc": rc, "stderr": err[-300:]})
+            chk.cov.setdefault("driver_incomplete_cases", []).append({"id": first["id"], "cls": first["cls"], "rc": rc_, "stderr": err_[-300:]})
+            rounds += 1
+            if not rest or rounds > 200:
+                break
+            rc_, evs2, err_ = run_driver(build, sc, kind, [c["recipe"] if kind == "rt" else c["textline"] for c in rest],
+                                         "%s_retry_%d" % (label, first["id"]), timeout=1500)
+            b2, _ = case_events(evs2)
+            by.update(b2)
+            todo = rest
     # --- TLC
     groups = shard(cases, by)
 
@@ -838,7 +912,7 @@ def report_rejections(chk, sc, build, cases, rejs, by, kind):
     cmap = {c["id"]: c for c in cases}
     GROUP = {"not-equal": "roundtrip", "not-iso": "roundtrip", "read-error": "roundtrip", "read-malformed": "roundtrip", "text-not-consumed": "roundtrip",
              "text-not-equal": "text", "text-not-iso": "text", "text-syntax": "text", "text-lex": "text",
-             "readers-differ-outcome": "readers-differ", "readers-differ-datum": "readers-differ", "no-end": "crash-or-hang"}
+             "readers-differ-outcome": "readers-differ", "readers-differ-datum": "readers-differ", "no-end": "crash-or-hang"}      # other reasons are their own group
     WFAM = {"native": "native-writer", "simple": "native-writer", "write": "srfi38-writer", "shared": "srfi38-writer"}
     percase = {}
     for cid, why, w, r in rejs:
@@ -1030,6 +1104,65 @@ MALFORMED_TEXTS = [
 ]
 
 
+def gen_label_texts(rng, thorough):
+    """hand-written texts with many datum labels whose numbers are NOT the consecutive 0,1,2.. a writer produces:
+       descending, strided, shuffled, on strings / bytevectors / atoms, referenced in several orders; and references
+       to labels that are never defined.  (class, judgement, text)"""
+    out = []
+    sizes = LABEL_SIZES_THOROUGH if thorough else [3, 23, 24, 25, 26, 47, 48, 49, 50, 96, 97, 200]
+
+    def item(kind, j):
+        return {"pair": "(%d)" % j, "vec": "#(%d)" % j, "str": "\"s%d\"" % j, "bytes": "#u8(%d)" % (j % 256), "sym": "x%d" % j, "int": "%d" % (1000 + j),
+                "char": "#\\a"}[kind]
+
+    def text(nums, refs, kinds=("pair",), close=")"):
+        return "(" + " ".join("#%d=%s" % (m, item(kinds[j % len(kinds)], j)) for j, m in enumerate(nums)) + "".join(" #%d#" % m for m in refs) + close
+    for n in sizes:
+        ep = label_epoch(n)
+        asc = list(range(n))
+        desc = asc[::-1]
+        # numbers descending inside blocks of 16 (the native reader accepts a new label up to 16 above the highest seen)
+        blk, lo = [], 0
+        while lo < n:
+            hi_ = min(lo + 16, n - 1) if lo == 0 else min(lo + 15, n - 1)
+            blk += list(range(hi_, lo - 1, -1))
+            lo = hi_ + 1
+        out.append(("labels-text-descending-blocks:" + ep, "agree", text(blk, asc)))
+        out.append(("labels-text-descending-blocks:" + ep, "agree", text(blk, blk[::-1])))
+        # a window of 16 ahead of the highest label is what the native reader accepts: shuffled inside that window
+        nums, hi, pool = [], -1, set()
+        while len(nums) < n:
+            cand = [m for m in range(max(0, hi - 40), hi + 17) if m not in pool]
+            m = rng.choice(cand)
+            nums.append(m)
+            pool.add(m)
+            hi = max(hi, m)
+        out.append(("labels-text-shuffled:" + label_epoch(hi + 1), "agree", text(nums, sorted(nums))))
+        out.append(("labels-text-shuffled:" + label_epoch(hi + 1), "agree", text(nums, nums[::-1])))
+        # stride 16 (the largest step the native reader accepts)
+        st = [16 * j for j in range(max(2, n // 16 + 1))]
+        out.append(("labels-text-stride16:" + label_epoch(st[-1] + 1), "agree", text(st, st[::-1])))
+        # labels on data that writers never label
+        out.append(("labels-text-on-atoms:" + ep, "agree", text(asc, desc + asc, kinds=("str", "bytes", "vec", "sym", "int", "char", "pair"))))
+        # references to the boundary labels only, after all definitions
+        bd = [k for k in (0, 22, 23, 24, 46, 47, 48, 94, 95, 96, 190, 191, 192, n - 1) if k < n]
+        out.append(("labels-text-boundary-refs:" + ep, "agree", text(asc, bd + bd[::-1])))
+        # forward structure: every labelled list refers to the first and is referred to from the end
+        out.append(("labels-text-cycles:" + ep, "agree", "#0=(" + " ".join("#%d=(%d #0#)" % (j, j) for j in range(1, n)) + "".join(" #%d#" % j for j in range(n - 1, -1, -1)) + ")"))
+        # one reference to a label that is never defined, after n definitions
+        for m in sorted(set([n, n + 1, 23, 24, 47, 48, 95, 96, 191, 192, 300, 1000, 99999]) - set(asc)):
+            out.append(("labels-text-undefined:" + ep, "undefined", text(asc, [0, m])))
+        out.append(("labels-text-undefined:" + ep, "undefined", text(st, [st[-1] + 1])))
+        out.append(("labels-text-undefined:" + ep, "undefined", text(st, [st[-1] - 1])))
+    # steps of more than 16, large numbers: valid R7RS (a label is any <uinteger 10>)
+    for t in ("#100=(a . #100#)", "(#0=a #17=b #17# #0#)", "(#0=a #16=b #33=c #33#)", "#1000=x", "(#1000=(a) #1000#)", "(#5=a #2=b #30=c #5# #2# #30#)",
+              "#99999=(a #99999#)", "(#24=a #24#)", "(#23=a #23#)", "(#17=a #0=b #17#)"):
+        out.append(("labels-text-gap", "agree", t))
+    for t in ("(#0=a #4294967296#)", "(#0=a #18446744073709551616#)", "(#0=a #99999999999999999999#)", "#4294967296=(a . #4294967296#)", "(#0=a #00000000000000000000#)"):
+        out.append(("labels-text-huge-number", "total", t))
+    return [(c, j, S(t)) for c, j, t in out]
+
+
 def gen_texts(rng, written, thorough):
     """(class, judgement, code points).  judgement "agree": both readers must produce the same outcome (texts from
        the writers, valid R7RS texts); "truncated": TLC decides whether the prefix is an incomplete datum (both readers
@@ -1067,6 +1200,11 @@ def gen_texts(rng, written, thorough):
             out.append(("truncated", "truncated", S(s)[:k]))
     for s in MALFORMED_TEXTS:
         out.append(("malformed", "total", S(s)))
+    # rationals whose denominator is not an exact integer (the denominator is read as a number of its own)
+    for t in ("1/2e3i", "23/30e+10i", "3/0e1i", "1/2e3", "1/2.5", "1/2.5i", "1/2/3i", "1/2e0", "-1/2e3i", "#e1/2e3i", "#x1/2e3i", "1/1e400i", "1/+inf.0i", "1/+nan.0i",
+              "1/2e3+1i", "1/2+1e3i", "1/0.0i", "1/-2i", "1/+2i", "1/2e-3i", "(1/2e3i)", "1/2@1e3", "1/2e3@1"):
+        out.append(("malformed-rational-denominator", "total", S(t)))
+    out += gen_label_texts(rng, thorough)
     for d in (100, 1000) + ((10000,) if thorough else ()):
         out.append(("deep-open", "truncated", S("(" * d)))
         out.append(("deep-vector-open", "truncated", S("#(" * d)))
@@ -1130,6 +1268,7 @@ def run():
             chk.add_mc(cfg.replace(".cfg", ""), r)
         add_tlc_graphs(cs, graphs)
         gen_graphs_random(cs, rng, thorough)
+        gen_labels(cs, rng, thorough)
         gen_trees(cs, rng, thorough)
         gen_numbers(cs, rng, thorough)
         gen_flonums(cs, rng, thorough, 1000000 if thorough else 10000)
@@ -1225,7 +1364,8 @@ def run():
         chk.cov["text_cases"] = len(tcases)
         chk.cov["text_reads_validated"] = ttot[3]
         chk.cov["text_rejection_keys"] = {k: len(set(t[0] for t in v)) for k, v in sorted(tkeys.items())}
-        if ttot[3] < 2 * len(tcases) - 4:
+        ncrash = len(chk.cov.get("driver_incomplete_cases", []))          # a crashed case has no reads: a verdict, not vacuity
+        if ttot[3] < 2 * (len(tcases) - ncrash) - 4:
             raise Broken("vacuous text run: %d reads for %d texts" % (ttot[3], len(tcases)))
         chk.sample({"class": "text case", "text": tcases[len(tcases) // 2]["note"], "events": parsed(tby, tcases[len(tcases) // 2]["id"])})
         # ---------------- model checking results
